@@ -8,6 +8,11 @@ MC_MetaTracks == {<<>>,
                   <<MTs(0, 0, 2, 4), MKs(0, 0, "F"), MTs(48, 0, 6, 8), MKs(48, 0, "Eb")>>,
                   <<MTs(96, 0, 3, 4)>>,
                   <<MKs(96, 0, "A")>>,
-                  <<MTs(0, 0, 4, 4), MTs(96, 0, 3, 4), MTs(168, 0, 4, 4), MKs(168, 0, "G")>>}
+                  <<MTs(0, 0, 4, 4), MTs(96, 0, 3, 4), MTs(168, 0, 4, 4), MKs(168, 0, "G")>>,
+                  (* bars that are not a whole number of quarter notes *)
+                  <<MTs(0, 0, 3, 8)>>,
+                  <<MTs(0, 0, 4, 4), MTs(96, 0, 7, 8), MKs(96, 0, "Bb")>>,
+                  <<MTs(0, 0, 5, 8), MTs(60, 0, 9, 8)>>,
+                  <<MTs(0, 0, 5, 16)>>}
 MC_Durations == {0, 1, 47, 48, 72, 95, 96, 97, 120, 168, 192, 200, 264}
 =============================================================================
